@@ -1,7 +1,5 @@
 package harness
 
-
-
 // SELF — probes of the machinery itself (used by `./check selftest`, not a property):
 // two tasks write one variable without any synchronisation of their own. The only thing that
 // orders them is the scheduler's token passing; the race build must nevertheless report the
@@ -26,4 +24,3 @@ func init() {
 		Check: func(w *World) {},
 	})
 }
-
